@@ -136,6 +136,14 @@ CloseAt(s, i)   == [s EXCEPT ![i].open = FALSE]
 
 CanCall == pend.op = "none" /\ ncalls < MaxCalls
 
+\* what a failed Connect does to the connection the client already had: nothing, or it
+\* closes it; GetStream may afterwards still return the old (closed) stream or nil
+FailedConnectKeeps ==
+  \/ UNCHANGED <<cur, socks>>
+  \/ cur # 0 /\ socks[cur].open /\ socks' = CloseAt(socks, cur) /\ cur' \in {cur, 0}
+  \/ cur # 0 /\ ~socks[cur].open /\ cur' = 0 /\ UNCHANGED socks
+  \/ Has("ReconnectLeaks") /\ route = "shared" /\ cur # 0 /\ socks[cur].open /\ cur' = 0 /\ UNCHANGED socks
+
 \* Connect on a client object: one public call
 Connect(e, x) ==
   /\ CanCall /\ cl = "live" /\ e \in EnvsNew /\ x \in Ctxs
@@ -147,9 +155,7 @@ Connect(e, x) ==
             /\ UNCHANGED <<cur, socks, ret, leak>>
        [] ph = "err" ->
             /\ ret' = [call |-> "connect", res |-> "err", by |-> "fast"]
-            /\ \/ UNCHANGED <<cur, socks>>                                     \* the old connection is untouched
-               \/ cur # 0 /\ socks[cur].open /\ socks' = CloseAt(socks, cur) /\ UNCHANGED cur   \* or closed
-               \/ Has("ReconnectLeaks") /\ route = "shared" /\ cur # 0 /\ cur' = 0 /\ UNCHANGED socks
+            /\ FailedConnectKeeps
             /\ UNCHANGED <<pend, ctxc, tmo, leak>>
        [] ph = "ok" ->
             \/ /\ Len(socks) < MaxSock
@@ -251,7 +257,8 @@ CallEnd ==
   /\ ret' = [call |-> pend.op, res |-> "err",
              by |-> IF ctxc /\ ~CtxIgnored THEN "fast" ELSE "timeout"]
   /\ leak' = IF pend.ph = "hs" /\ Has("LeakOnAuthFailure") THEN leak + 1 ELSE leak
-  /\ UNCHANGED <<how, route, sec, cl, cur, socks, neg, authed, ctxc, tmo, ncalls>>
+  /\ IF pend.op = "connect" THEN FailedConnectKeeps ELSE UNCHANGED <<cur, socks>>
+  /\ UNCHANGED <<how, route, sec, cl, neg, authed, ctxc, tmo, ncalls>>
 
 CInit ==
   /\ how \in Hows /\ route \in Routes /\ sec \in Secs
@@ -346,7 +353,7 @@ ECancel ==
   /\ UNCHANGED <<srv, cause, lopen, tempq, conns>>
 
 EExtClose ==
-  /\ srv = "serving" /\ lopen /\ ~cancelled /\ lopen' = FALSE
+  /\ srv # "init" /\ lopen /\ ~cancelled /\ lopen' = FALSE
   /\ UNCHANGED <<srv, cause, cancelled, tempq, conns>>
 
 ETempErr ==
